@@ -29,6 +29,19 @@ add("C16", EXACT + "; shadow classifier proves every branch of the multi-word di
     "Exploration: the doc-hidden 256-bit helpers are compared with exact division identities (a*b = q*m + r, 0 <= r < m) on branch-directed inputs; label histogram shows all Knuth-D correction branches were reached; API-level wide-path cases for * / mul_rounded div_rounded checked_div.",
     "Trusts the oracle crate and rustc; the shadow classifier is used for labelling only.", "5/C16")
 
+add("C06", "property-based testing (proptest) with grammar-derived, boundary-constructed, near-miss and arbitrary strings against a character-level reference parser; guard-page placement turns out-of-bounds reads into faults",
+    "Exploration: from_str / TryFrom<&str|String> / str_to_dec compared with a reference parser with big-integer accumulation on generated strings; inputs are additionally parsed from buffers ending at / starting after a PROT_NONE page so reads outside the string fault (SIGSEGV handler writes the replay).",
+    "Trusts the reference parser (oracle crate), mmap/mprotect semantics, rustc; page-granular detection of over-reads in this tier.", "5/C06")
+add("C07", "property-based round-trip and differential testing (proptest) against a reference formatter",
+    "Exploration: to_string / String::from / Display / Debug text / serde_json compared with a reference string built from std integer digits; parsing it back must give the identical (coefficient, scale).",
+    "Trusts the reference formatter, std integer formatting, serde_json, rustc.", "5/C07")
+add("C10", EXACT,
+    "Exploration: %, %= and checked_rem in all operand forms against the truncated-division identity computed on aligned big integers; stepwise and overflow exits constructed.",
+    "Trusts the oracle crate and rustc; overflow signal accepted only where the statement permits it.", "5/C10")
+add("C11", "property-based testing (proptest) over 48 macro-stamped static flag sets x runtime width/precision against a rounding + padding reference model that is itself checked against std integer formatting on every case",
+    "Exploration: format!(\"{:..w$.p$}\", d) for generated decimals, modes, flags, widths 0..=60 and precisions 0..=40 compared with an exact reference (single rounding by mode definitions, pad_integral model).",
+    "Trusts the padding model (validated per case against std), the oracle crate and rustc.", "5/C11")
+
 def main():
     checks = []
     na = []
